@@ -92,13 +92,20 @@ func Open(dsn string, ctl *Control) *sql.DB {
 	return db
 }
 
+// Connector returns the fault-injecting connector; hook (optional) is run on
+// every new raw connection (e.g. to register SQL functions).
+func Connector(dsn string, ctl *Control, hook func(*sqlite3.SQLiteConn) error) driver.Connector {
+	return &connector{dsn: dsn, ctl: ctl, hook: hook}
+}
+
 type connector struct {
-	dsn string
-	ctl *Control
+	dsn  string
+	ctl  *Control
+	hook func(*sqlite3.SQLiteConn) error
 }
 
 func (c *connector) Connect(ctx context.Context) (driver.Conn, error) {
-	raw, err := (&sqlite3.SQLiteDriver{}).Open(c.dsn)
+	raw, err := (&sqlite3.SQLiteDriver{ConnectHook: c.hook}).Open(c.dsn)
 	if err != nil {
 		return nil, err
 	}
